@@ -627,26 +627,36 @@ def global_value(unit, g):
 
 def alpha_keys(fn, subst=None):
     """statement keys of a function in reverse post-order with its own variables renamed canonically: parameters by
-    position (p0, p1, ...), locals by order of first appearance (v0, v1, ...).  Two functions that differ only in the
-    spelling of locals/parameters give the same list.  subst(str)->str is applied to each key afterwards."""
+    position (p0, p1, ...), locals by order of declaration of their *source name* (v0, v1, ...; block-scoped temporaries
+    that reuse one name, e.g. a macro's status variable, share one canonical name).  Two functions that differ only in
+    the spelling of locals/parameters give the same list.  subst(str)->str is applied to each key afterwards."""
     import copy
     names = {}
+    byname = {}
     for i, p in enumerate(fn.params):
         names[p["id"]] = "p%d" % i
+    # declaration order of local names
+    for b in fn.rpo():
+        for e in fn.blocks[b].elems:
+            for n, _ in walk(e):
+                if n.get("k") == "decl":
+                    for v in n.get("vars", []):
+                        if v["n"] not in byname:
+                            byname[v["n"]] = "v%d" % len(byname)
     out = []
 
     def ren(n):
         if isinstance(n, dict):
             if n.get("k") == "ref" and n.get("dk") in ("local", "parm") and "id" in n:
-                if n["id"] not in names:
-                    names[n["id"]] = "v%d" % sum(1 for v in names.values() if v.startswith("v"))
-                n["n"] = names[n["id"]]
+                if n["id"] in names:
+                    n["n"] = names[n["id"]]
+                else:
+                    if n["n"] not in byname:
+                        byname[n["n"]] = "v%d" % len(byname)
+                    n["n"] = byname[n["n"]]
             if n.get("k") == "decl":
                 for v in n.get("vars", []):
-                    if v.get("id") is not None:
-                        if v["id"] not in names:
-                            names[v["id"]] = "v%d" % sum(1 for x in names.values() if x.startswith("v"))
-                        v["n"] = names[v["id"]]
+                    v["n"] = byname.get(v["n"], v["n"])
             for v in n.values():
                 ren(v)
         elif isinstance(n, list):
